@@ -990,11 +990,16 @@ func ext۰proto۰Marshal(fr *frame, args []value) value {
 	if m.t == nil {
 		return tuple{[]value(nil), iface{}}
 	}
-	p := m.v.(*value)
-	if p == nil {
-		return tuple{[]value(nil), iface{}}
+	var blob *protoBlob
+	if p, isPtr := m.v.(*value); isPtr {
+		if p == nil {
+			return tuple{[]value(nil), iface{}}
+		}
+		blob = &protoBlob{t: m.t, v: deepCopyValue(*p, map[*value]*value{})}
+	} else {
+		// a non-pointer value (json.Marshal of a map, slice, ...): readable back into a *T
+		blob = &protoBlob{t: types.NewPointer(m.t), v: deepCopyValue(m.v, map[*value]*value{})}
 	}
-	blob := &protoBlob{t: m.t, v: deepCopyValue(*p, map[*value]*value{})}
 	st.blobs = append(st.blobs, blob)
 	id := len(st.blobs)
 	return tuple{[]value{uint8(0xfb), uint8('P'), uint8('B'), uint8(id >> 16), uint8(id >> 8), uint8(id)}, iface{}}
